@@ -1,6 +1,7 @@
 package main
 
 import (
+	"golang.org/x/tools/go/packages"
 	"fmt"
 	"go/ast"
 	"go/parser"
@@ -103,7 +104,19 @@ func (fr *Frame) applyContract(s *State, c *Contract, callee *types.Func, recv *
 	}
 	env2 := &SpecEnv{eng: fr.eng, vc: fr.vc, s: s, old: pre, names: names, pkg: cpkg, side: &side, fr: fr}
 	for _, r := range c.Ensures {
+		miss := ""
+		env2.missingLocal = &miss
+		env2.localsOf = fr.eng.funcs[callee]
+		if env2.localsOf == nil {
+			env2.localsOf = &FuncInfo{Pkg: &packages.Package{}}
+		}
 		t := env2.evalBool(r.E)
+		if miss != "" {
+			// a postcondition over a local variable of the callee says nothing to its callers
+			env2.err = nil
+			side = side[:0]
+			continue
+		}
 		if env2.err != nil {
 			fr.vc.failed = fmt.Errorf("contract %s: ensures %q: %v", c.Key, r.Text, env2.err)
 			return results
@@ -613,6 +626,8 @@ func (e *Engine) verifyFunc(c *Contract) *VC {
 			}
 			side2 = side2[:0]
 			vc.oblige(r.s, fmt.Sprintf("post%d.ret", i+1), t, fi.Decl.Pos(), fmt.Sprintf("postcondition %d of %s at return %d: %s", i+1, c.Key, ri+1, en.Text))
+			// later postconditions may build on earlier ones (each is proved from the facts before it)
+			r.s.assume(t)
 		}
 	}
 	return vc
